@@ -33,6 +33,10 @@ pub struct Node {
     /// no entry point can decode it, the call fails before any contract code runs
     #[serde(default)]
     pub empty_msg: bool,
+    /// fault flag: the body PANICS after its writes (a crash inside contract code: nothing catches it, the
+    /// whole call unwinds; the chain must be exactly as before and stay usable)
+    #[serde(default)]
+    pub panic: bool,
     pub subs: Vec<Sub>,
 }
 
